@@ -664,6 +664,69 @@ class SpawnFail(Part):
         return Outcome(viol, labels, not started)
 
 
+CHATTY_TESTS = int(os.environ.get('ZTV_C06_CHATTY_TESTS', '110'))
+
+
+@st.composite
+def chatty_cases(draw):
+    """N+1 independent layers, -j N: one of the first N layers runs a steady stream of short tests (a progress mark
+    every ~55 ms for ~6 s), the others are over at once; the layer that had to wait for a slot must get it while the
+    chatty one is still busy"""
+    n = draw(st.integers(2, 3))
+    k = n + 1
+    names = sorted(gen.LAYER_NAMES[:k])
+    chatty = draw(st.integers(0, n - 1))
+    layers = [{'name': nm, 'kind': 'class', 'bases': [], 'hooks': ['setUp', 'tearDown']} for nm in names]
+    ch = []
+    for i in range(k):
+        if i == chatty:
+            tests = [{'n': 'test_%03d' % j, 'k': 'pass', 'acts': {'body': [['sleep', 0.055]]}} for j in range(CHATTY_TESTS)]
+        else:
+            tests = [{'n': 'test_0', 'k': draw(st.sampled_from(['pass', 'pass', 'fail'])),
+                      'acts': {'body': [['out', 'p', 'Tk%dq' % i]]}}]
+        ch.append({'t': 'c', 'name': 'TC%d' % i, 'layer': i, 'tests': tests})
+    return {'spec': {'layers': layers, 'modules': [{'name': 'a', 'tree': {'t': 's', 'ch': ch}}]}, 'chatty': chatty,
+            'n': n, 'verbose': draw(st.sampled_from([0, 1, 2, 2, 3, 3])), 'progress': draw(st.integers(0, 4)) == 0}
+
+
+class Chatty(Part):
+    """'up to N layers do make progress at the same time' while one child produces output all the time"""
+    name = 'chatty'
+    examples = {'quick': 48, 'thorough': 320}
+
+    def strategy(self, tier):
+        return chatty_cases()
+
+    def execute(self, case):
+        out = self._execute(case)
+        if out.viol:
+            again = self._execute(case)          # decided by time stamps: must repeat
+            sigs = {s for s, _ in again.viol}
+            out.viol = [(s, m) for s, m in out.viol if s in sigs]
+        return out
+
+    def _execute(self, case):
+        spec = common.with_prefix(copy.deepcopy(case['spec']))
+        n, v = case['n'], case['verbose']
+        tag = 'j%d' % n
+        args = common.args_of({'verbose': v, 'j': n, 'extra': ['-p'] if case['progress'] else []})
+        run = drive.run_inproc(spec, args, disk=True)
+        viol = [(s + '/' + tag, m) for s, m in common.run_escaped(run, 'C06')]
+        cname = spec['layers'][case['chatty']]['name']
+        last = spec['layers'][-1]['name']
+        t_chatty_end = max([e['t'] for e in run.trace if e['ev'] == 'L' and e.get('layer') == cname and 't' in e] or [0])
+        t_last_start = min([e['t'] for e in run.trace if e['ev'] == 'L' and e.get('layer') == last and 't' in e] or [0])
+        ok = bool(t_chatty_end and t_last_start)
+        if run.exc is None and not ok:
+            viol.append(('C06/layer-never-ran/' + tag, 'no hook event of layer %s / %s in the trace' % (cname, last)))
+        elif run.exc is None and t_last_start > t_chatty_end:
+            viol.append(('C06/fewer-than-N-in-flight/' + tag,
+                         'with -j %d -v%d the layer %s got its slot only %.1f s after the busy layer %s had ended, although a '
+                         'slot was free for about %.0f s' % (n, v, last, (t_last_start - t_chatty_end) / 1e9, cname,
+                                                            CHATTY_TESTS * 0.055)))
+        return Outcome(viol, ['N=%d' % n, 'v%d' % v, 'chatty-layer-%d' % case['chatty']], ok)
+
+
 class C06(Prop):
     id = 'C06'
     registered = True
@@ -685,10 +748,11 @@ class C06(Prop):
             'permutation of all barrier points; non-trivial = N>=2 and the layers finish in an order different from the '
             'sequential layer order. diff: bigger worlds, natural schedule; non-trivial = N>=2, >=2 child processes and '
             '>=1 bad test. spawnfail: 2..4 independent layers one of which cannot be started (argument too long for '
-            'exec); non-trivial = that layer really was not started. Distinct by hash of (world, N, verbosity, priority order).')
+            'exec); non-trivial = that layer really was not started. chatty: N+1 layers with -j N, '
+            'one busy layer printing progress marks all the time; non-trivial = both layers left hook events. Distinct by hash of (world, N, verbosity, priority order).')
     assumptions = ('CLOCK_MONOTONIC is common to all processes of a run',
                    'a child is alive between its first trace event and its child_exit event')
-    parts = (Sched(), Diff(), SpawnFail())
+    parts = (Sched(), Diff(), SpawnFail(), Chatty())
 
 
 PROP = C06()
